@@ -475,6 +475,9 @@ class World:
             grab("solve_u", lambda: do_solve(rec))
             grab("v", lambda: s._Get_v_n(s.problemType))
             grab("a", lambda: s._Get_a_n(s.problemType))
+            # the matrices of the last Newton iterate (same state on both sides): mass and damping included
+            for j, nm in enumerate("KCMF"):
+                grab(nm + "_last", lambda j=j: s.Get_K_C_M_F()[j])
             grab("Svm", lambda: s.Result("Svm", nodeValues=False))
         else:
             for j, nm in enumerate("KCMF"):
